@@ -6,7 +6,7 @@ from corpus import corpus
 
 TEMPLATES = ["parens", "position", "position_fn", "func", "case", "subquery", "derived", "derived_select", "derived_join", "array", "bracket", "not", "neg",
              "cast", "interval", "interval_paren", "extract", "substring", "trim", "ceil", "overlay", "exists", "struct", "map", "dict", "convert",
-             "join_parens", "in_list", "tuple", "between", "window", "lambda", "paren_tuple_lambda", "typed_paren", "explain", "explain_paren",
+             "join_parens", "in_list", "tuple", "between", "window", "lambda", "lambda_paren", "paren_tuple_lambda", "typed_paren", "explain", "explain_paren",
              "datatype_array", "datatype_struct", "pattern", "pattern_alt", "prior", "union_paren", "cte", "subscript"]
 
 
@@ -19,10 +19,13 @@ def ladders(run):
     ratio >= 1.8 for three consecutive depths with steps > 5000."""
     ds = DIALECTS if run.tier == "thorough" else ["generic", "mysql", "snowflake"]
     cases = [{"dialect": d, "template": t, "n": n} for d in ds for t in TEMPLATES for n in range(2, 15)]
+    # failing variants (the nest cut at its innermost point): a speculative parse that fails only at the very end and
+    # is then repeated by the fallback doubles the work per level; all dialects, since speculation sits behind dialect gates
+    cases += [{"dialect": d, "template": t, "n": n, "fail": True} for d in DIALECTS for t in TEMPLATES for n in range(2, 15)]
     res = run_bin_parallel("drive", ["ladder"], cases, timeout=600)
     by = {}
     for c, r in zip(cases, res):
-        by.setdefault((c["dialect"], c["template"]), []).append((c["n"], r))
+        by.setdefault((c["dialect"], c["template"] + (":fail" if c.get("fail") else "")), []).append((c["n"], r))
     found = {}
     worst_poly = 0.0
     for (d, t), rows in by.items():
@@ -146,14 +149,19 @@ def check(run):
     run.notes["ladders"] = {"runs": len(lcases), "templates": len(TEMPLATES), "exponential_or_panic": sorted("%s:%s:%s" % k for k in found), "max_steps_over_n3": worst_poly}
     seen_keys = set()
     for (kind, t, d), info in sorted(found.items()):
-        key = ("exponential:" if kind == "exp" else "ladder-panic:") + t
+        # a failing variant exercises the same speculation site as its template (POSITION's `expr IN expr` attempt, the
+        # typed-string attempt in front of INTERVAL): filed under the same call site
+        base = t[:-5] if t.endswith(":fail") else t
+        if t.endswith(":fail") and kind == "exp":
+            base = {"interval_paren": "interval", "position": "position_fn"}.get(base, base)
+        key = ("exponential:" if kind == "exp" else "ladder-panic:") + base
         if key in known:
             run.known(key, known[key])
         elif key not in seen_keys:
             seen_keys.add(key)
             viol += 1
             run.violation({"what": "work doubles with every nesting level" if kind == "exp" else "panic on nested input", "template": t, "dialect": d,
-                           "input": "nest_text(%r, %d) of harness/vh/src/bin/drive.rs" % (t, info["n"]), "observed": info})
+                           "input": "nest_text(%r, %d) of harness/vh/src/bin/drive.rs%s" % (base if t.endswith(":fail") else t, info["n"], " cut at its innermost point + ' +'" if t.endswith(":fail") else ""), "observed": info})
 
     # 3b. very deep nests: every template at a depth far beyond any stack, one driver per case group; the process
     # must come back with a value, an error or the limit error (an abort / stack overflow kills the driver: "crash")
